@@ -214,7 +214,11 @@ def add_noise(text):
             out.append("; a comment line")
         if i % 4 == 1:
             out.append("")
-        if line.startswith("#"):
+        if line.startswith(("#ifdef ", "#ifndef ")):
+            # directive and macro name separated by two blanks / a tab / followed by blanks, as cpp allows
+            word, tag = line.split(None, 1)
+            out.append(word + ("  ", "\t", " ")[i % 3] + tag + ("", "  ")[i % 2])
+        elif line.startswith("#"):
             out.append(line)
         else:
             out.append(line + ("   " if i % 2 else " ; trailing comment"))
